@@ -67,7 +67,7 @@ package keeper
 
 //@ func (Keeper).unlock
 //@ opt prune=1
-//@ property C11 C15 C14
+//@ property C11 C15 C14 C13
 //@ let vaddr = req.Validator
 //@ let denom = old(types.TokenDenom(req.Token))
 //@ let held = old(amt(st.locking.Validators[req.Validator].Locking, types.TokenDenom(req.Token)))
